@@ -5,9 +5,16 @@ under a virtual clock patched into operon_ai.topology.loops; after each step the
 result.action, get_circuit_breaker_stats(), stub invocation counters and the budget balance.
 Outcome classes are produced by scripted stub agents (and, in a second workload, by recording
 proxies around the genuine BioAgents).
+
+Structure: `Rig` owns one real loop with its stubs / callbacks and executes concrete operations
+(request, clock advance, reset, cache clear); `Session` = Rig + reference automaton + judgement.
+Sessions are run alone, in pairs on one clock (two differently configured instances used
+alternately), very long (> 20 000 operations on one instance), and followed by a "twin" replay
+of the same concrete operations with no / many read-only calls in between (differential).
 """
 import contextlib
-import io
+import datetime as _dt
+import enum
 import itertools
 import sys
 
@@ -21,17 +28,32 @@ LEVEL = "exploration"
 TECHNIQUE = "runtime monitoring: lock-step reference timed automaton vs the real guard loop under a virtual clock, with invocation counters in stub/proxied agents and budget snapshots"
 RULE = ("threshold 1..4 x recovery {1s,60s} x cache on/off x breaker on/off; all sequences of length <= 4 (quick) / <= 5 (thorough) over "
         "{S success, B intentional block, F executor failure, X agent exception, C repeat of a cached prompt, d< d= d> clock advances relative to the "
-        "recovery timeout, R manual reset} are swept, longer ones (6-8) sampled; a second workload drives the genuine BioAgents; "
+        "recovery timeout, R manual reset} are swept, longer ones (6-8) sampled with extreme / fractional thresholds and timeouts (0, sub-second, "
+        "fractional, whole days), verbose mode, raising / reading callbacks, shared verdict objects, repeated prompts, clock jumps beyond 24 h, "
+        "cache clears, pairs of differently configured instances used alternately, read-only calls interleaved (differential twin) and sessions of "
+        "> 20 000 operations on one instance; a second workload drives the genuine BioAgents; "
         "non-trivial = the sequence reaches OPEN; distinct = reference-automaton state trace")
 ASSUMPTIONS = ["default AND gate; failure := executor FAILURE verdict (assessor permitting) or agent exception, as the statement lists them",
                "several probes may be admitted while half-open; a cache hit is not a consultation",
-               "failures counted 'in total' since the last clear (successful probe / manual reset); an implementation that also clears on ordinary successes is accepted"]
+               "failures counted 'in total' since the last clear (successful probe / manual reset); an implementation that also clears on ordinary successes is accepted",
+               "a user callback (on_block / on_permit) that raises may make run() raise that very exception; the breaker obligations are judged on the state afterwards, "
+               "using the result object the callback was handed",
+               "a recovery timeout <= 0 means every request after a trip is admitted as a probe; thresholds outside 1..4 (0, negative, fractional, huge, inf) are judged "
+               "only through the two inequalities of the statement (never open with fewer failures in total than the threshold, open once the consecutive failures reach it)",
+               "read-only calls (statistics, stats, results log, repr) and clear_cache() are not requests: they must not change any later reply"]
 
 ALPHA = ["S", "B", "F", "X", "C", "d<", "d=", "d>", "R"]
 CONFIGS = [(th, rec, cache, True, "AND") for th in (1, 2, 3, 4) for rec in (1.0, 60.0) for cache in (False, True)] + \
           [(2, 60.0, False, False, "AND"), (1, 1.0, True, False, "AND")] + \
           [(th, 60.0, cache, True, lg) for lg in ("OR", "EXECUTOR_PRIORITY", "ASSESSOR_PRIORITY", "UNANIMOUS") for (th, cache) in ((1, False), (3, True))]
-RAND_ALPHA = ALPHA + ["Fs", "Xs"]       # failures during which the clock moves (slow agent), random sequences only
+# random sequences only: failures during which the clock moves (slow agent), the ASSESSOR raising, advances 1 ms below / above the
+# boundary, a jump of whole days, clearing the cache
+RAND_ALPHA = ALPHA + ["Fs", "Xs", "Xa", "d-", "d+", "dD", "K"]
+RAND_W = [3, 2, 4, 4, 1, 2, 1, 2, 1, 2, 2, 2, 2, 1, 1, 1]
+DAY = 86400.0
+EXT_THRESHOLDS = [0, -1, 1, 2, 2.5, 3.0, 3.000000000000001, 4, 7, 2 ** 53 + 1, float("inf")]
+EXT_RECOVERIES = [0.0, -1.0, 0.001, 0.05, 0.1 + 0.2, 0.5, 1.0005, 2.5, 59.999, 60, 3600.5, DAY, DAY + 3600.0, 3 * DAY]
+DEFAULT_OPTS = {"verbose": False, "callbacks": None, "ident": "fresh", "prompts": "fresh", "cache_ttl": 10 ** 6, "timeout_seconds": 30.0}
 
 
 def sweep_size(depth):
@@ -51,22 +73,65 @@ def decode_seq(idx, depth):
     raise IndexError
 
 
+def n_long(tier):
+    return 2 if tier == "quick" else 8
+
+
 def plan(tier):
     depth = 4 if tier == "quick" else 5
     per_cfg = sweep_size(depth)
-    # quick: each config gets a deterministic 1/6 slice of its depth-4 sweep per run (rotated by seed) + samples
+    # quick: each config gets a deterministic 1/10 slice of its depth-4 sweep per run (rotated by seed) + samples
     nsweep = len(CONFIGS) * per_cfg // (10 if tier == "quick" else 1)
-    extra = 8000 if tier == "quick" else 300000
+    extra = 10000 if tier == "quick" else 300000
     return {"cases": nsweep + extra, "shards": 8 if tier == "quick" else 14, "min_nontrivial": 200,
             "timeout": 600 if tier == "quick" else 2400,
             "require": {"steps": 50000, "open_refusals_checked": 3000, "probes_admitted": 1000, "probe_success_closed": 200,
                         "probe_failure_reopened": 200, "trips": 1000, "executor_failures": 3000, "agent_exceptions": 3000,
                         "real_agent_steps": 500, "slow_failures": 1000, "other_gate_blocks": 500,
-                        "thread_schedules": 2000, "concurrent_failures_judged": 2000}}
+                        "thread_schedules": 2000, "concurrent_failures_judged": 2000,
+                        # round 3
+                        "verbose_requests": 2000, "verbose_output_chars": 20000, "callback_exceptions_propagated": 500,
+                        "callback_raised_on_failure": 100, "twin_requests_compared": 1500, "pair_sessions": 200,
+                        "long_session_steps": 9000, "long_session_trips": 100, "truncation_gap_refusals": 100, "fractional_gap_refusals": 40, "day_jump_probes": 50,
+                        "subsecond_timeout_refusals": 100, "zero_timeout_probes": 50, "shared_verdict_object_requests": 1000,
+                        "repeated_prompt_failures": 300, "cache_clears": 300, "extreme_threshold_failures": 500,
+                        "assessor_exceptions": 500}}
 
 
 class Boom(Exception):
     pass
+
+
+class CallbackBoom(Exception):
+    """raised by the user-supplied on_block / on_permit callbacks"""
+
+
+class Sink:
+    """stdout replacement for verbose mode"""
+
+    def __init__(self):
+        self.chars = 0
+
+    def write(self, s):
+        self.chars += len(s)
+        return len(s)
+
+    def flush(self):
+        pass
+
+
+_CONST = {}
+
+
+def const_protein(verdict):
+    """module-level verdict objects: the SAME ActionProtein for every request with that verdict"""
+    from operon_ai.core.types import ActionProtein
+    if verdict not in _CONST:
+        _CONST[verdict] = ActionProtein(verdict, "p", 0.9)
+    return _CONST[verdict]
+
+
+CONST_EXC = Boom("agent crashed")
 
 
 class Stub:
@@ -75,9 +140,10 @@ class Stub:
         self.budget = budget
         self.verdict = "PERMIT"
         self.calls = 0
-        self.log = []
         self.slow = 0.0
         self.clock = None
+        self.const = False
+        self.exc_index = 0
 
     def express(self, signal):
         from operon_ai.core.types import ActionProtein
@@ -86,8 +152,12 @@ class Stub:
         if self.slow and self.clock is not None:
             self.clock.advance(self.slow)      # the agent call itself takes (virtual) time
         if self.verdict == "raise":
-            self.exc_index = getattr(self, "exc_index", 0) + 7
+            if self.const:
+                raise CONST_EXC
+            self.exc_index += 7
             raise make_exception(self.exc_index, "agent crashed")      # a different exception class (with / without message) each time
+        if self.const:
+            return const_protein(self.verdict)
         return ActionProtein(self.verdict, "p", 0.9)
 
 
@@ -120,6 +190,522 @@ class Model:
         self.trace = []
 
 
+def read_only_calls(loop):
+    loop.get_statistics()
+    loop.get_circuit_breaker_stats()
+    loop.get_results_log()
+    loop.get_results_log(3)
+    repr(loop)
+    loop.get_circuit_breaker_stats()
+
+
+class Rig:
+    """One real loop + its monitors. `reads`: 'monitor' (the Session reads stats around every request), 'blind' (no read-only call at all),
+    'noisy' (a burst of read-only calls before and after every operation)."""
+
+    def __init__(self, clock, cfg, opts, real=False, budget=None, reads="monitor"):
+        from operon_ai.topology.loops import CoherentFeedForwardLoop, GateLogic
+        from operon_ai.state.metabolism import ATP_Store
+        self.clock, self.cfg, self.opts, self.real, self.reads = clock, cfg, opts, real, reads
+        threshold, recovery, cache, enabled, logic = cfg
+        self.sink = Sink()
+        self.cb_results = []
+        self.cb_exc = None
+        self.cb_calls = 0
+        with self.quiet():
+            self.budget = budget if budget is not None else ATP_Store(10 ** 7, silent=True)
+            kw = {}
+            mode = opts["callbacks"]
+            if mode is not None:
+                kw = {"on_block": self._callback, "on_permit": self._callback}
+            self.loop = CoherentFeedForwardLoop(self.budget, gate_logic=GateLogic[logic], enable_circuit_breaker=enabled, failure_threshold=threshold,
+                                                recovery_timeout_seconds=recovery, enable_cache=cache, cache_ttl_seconds=opts["cache_ttl"],
+                                                timeout_seconds=opts["timeout_seconds"], silent=not opts["verbose"], **kw)
+        if real:
+            self.ex, self.asr = Proxy(self.loop.executor), Proxy(self.loop.assessor)
+        else:
+            self.ex, self.asr = Stub("Gene_Z (Exec)", self.budget), Stub("Gene_Y (Risk)", self.budget)
+            self.ex.clock = self.asr.clock = clock
+            self.ex.const = self.asr.const = opts["ident"] == "const"
+        self.loop.executor, self.loop.assessor = self.ex, self.asr
+
+    def quiet(self):
+        if self.opts["verbose"] or self.real:
+            return contextlib.redirect_stdout(self.sink)
+        return contextlib.nullcontext()
+
+    def _callback(self, result):
+        self.cb_calls += 1
+        self.cb_results.append(result)
+        mode = self.opts["callbacks"]
+        if mode == "reads":
+            read_only_calls(self.loop)
+        elif mode == "raise" or (mode == "raise-some" and self.cb_calls % 2 == 1):
+            self.cb_exc = CallbackBoom("observer failed")
+            raise self.cb_exc
+
+    def calls(self):
+        return self.ex.calls + self.asr.calls
+
+    def do(self, op):
+        """execute one concrete operation; for a request returns the observation dict"""
+        kind = op[0]
+        if self.reads == "noisy":
+            with self.quiet():
+                read_only_calls(self.loop)
+        out = None
+        if kind == "adv":
+            self.clock.advance(op[1])
+        elif kind == "reset":
+            with self.quiet():
+                self.loop.reset_circuit_breaker()
+        elif kind == "clear":
+            with self.quiet():
+                self.loop.clear_cache()
+        else:
+            _, prompt, verdicts, slow, who = op
+            if not self.real and verdicts is not None:
+                self.ex.verdict, self.asr.verdict = verdicts
+                self.ex.slow = slow if who == "ex" else 0.0
+                self.asr.slow = slow if who == "as" else 0.0
+            calls0, bal0 = self.calls(), self.budget.get_balance()
+            self.cb_results, self.cb_exc = [], None
+            r, err, raised = None, None, False
+            try:
+                with self.quiet():
+                    r = self.loop.run(prompt)
+            except BaseException as e:     # noqa
+                if e is self.cb_exc and self.cb_results:
+                    raised = True
+                    r = self.cb_results[-1]      # the reply the loop had produced when it alerted the observer
+                else:
+                    err = e
+            out = {"r": r, "err": err, "cb_raised": raised, "calls": self.calls() - calls0, "spent": bal0 - self.budget.get_balance()}
+        if self.reads == "noisy":
+            with self.quiet():
+                read_only_calls(self.loop)
+        return out
+
+
+def obs_tuple(o):
+    if o["err"] is not None:
+        return ("raised", type(o["err"]).__name__, o["calls"], o["spent"])
+    r = o["r"]
+    return (r.action, bool(r.cached), bool(r.blocked), bool(r.success), o["calls"], o["spent"], o["cb_raised"])
+
+
+class Session:
+    def __init__(self, ctx, clock, cfg, opts, witness, label="", real=False, budget=None, long=False):
+        self.ctx, self.clock, self.cfg, self.opts, self.witness, self.label, self.real, self.long = ctx, clock, cfg, opts, witness, label, real, long
+        threshold, recovery, cache, enabled, logic = cfg
+        self.rig = Rig(clock, cfg, opts, real=real, budget=budget)
+        self.m = Model(threshold, recovery, enabled)
+        self.fresh = itertools.count()
+        self.cached_prompts = []       # prompts whose reply the cache holds: (prompt, class)
+        self.cur_cls = None            # outcome class the stubs are currently scripted for
+        self.reached_open = False
+        self.script = []               # concrete operations, for the twin replay
+        self.observed = []             # one obs_tuple per request
+        self.dead = False
+        self.extreme_th = not (isinstance(threshold, int) and 1 <= threshold <= 4)
+
+    def viol(self, mech, what):
+        self.dead = True
+        self.ctx.violation(mech, what, self.witness)
+
+    def note(self, *entry):
+        tr = self.witness["trace"]
+        tr.append(((self.label,) + entry) if self.label else entry)
+        if self.long and len(tr) > 60:
+            del tr[:20]
+
+    def do(self, op):
+        self.script.append(op)
+        return self.rig.do(op)
+
+    def step(self, sym):
+        """one symbol of the abstract alphabet; returns False once a violation has been recorded"""
+        if self.dead:
+            return False
+        ctx, m, clock, loop = self.ctx, self.m, self.clock, self.rig.loop
+        threshold, recovery, cache, enabled, logic = self.cfg
+        real = self.real
+        ctx.count("steps")
+        if self.long:
+            ctx.count("long_session_steps")
+        if sym in ("d<", "d=", "d>", "d-", "d+", "dD"):
+            rec = max(0.0, recovery)
+            if m.last_failure is not None and m.state == "open":
+                remaining = max(0.0, m.last_failure + rec - clock.time())
+            else:
+                remaining = rec
+            remaining = round(remaining, 3)          # all instants stay on a millisecond grid, so the
+            half = int(remaining * 500) / 1000.0     # implementation's microsecond datetimes are exact
+            dt = {"d<": half, "d=": remaining, "d>": remaining + 1.0, "d-": max(0.0, round(remaining - 0.001, 3)), "d+": remaining + 0.001,
+                  "dD": DAY + half}[sym]
+            if sym == "dD" and clock.offset > 60 * DAY:
+                dt = half                            # keep every instant within one season (no daylight-saving switch in local time)
+            self.do(("adv", dt))
+            self.note(sym, dt)
+            return True
+        if sym == "R":
+            self.do(("reset",))
+            m.state, m.total, m.consec = "closed", 0, 0
+            st = loop.get_circuit_breaker_stats()
+            if st.state.value != "closed" or st.failure_count != 0:
+                self.viol("reset-does-not-close", "after reset: state=%s failure_count=%d" % (st.state.value, st.failure_count))
+                return False
+            self.note("R")
+            return True
+        if sym == "K":
+            ctx.count("cache_clears")
+            st0 = loop.get_circuit_breaker_stats()
+            self.do(("clear",))
+            st = loop.get_circuit_breaker_stats()
+            self.cached_prompts = []
+            if (st.state, st.failure_count, st.last_failure) != (st0.state, st0.failure_count, st0.last_failure):
+                self.viol("cache-clear-changes-breaker", "clear_cache() moved the breaker %s/%d -> %s/%d" % (
+                    st0.state.value, st0.failure_count, st.state.value, st.failure_count))
+                return False
+            self.note("K")
+            return True
+        # ---- a request
+        slow, who = 0.0, "ex"
+        if sym == "C":
+            if not self.cached_prompts:
+                return True
+            prompt, _cls = self.cached_prompts[-1]
+            if self.opts["prompts"] != "fresh":
+                prompt = "".join(list(prompt))       # an equal but distinct string object
+            want = "C"
+            verdicts = None
+        else:
+            is_slow = sym in ("Fs", "Xs")
+            if sym == "Xa":
+                who = "as"
+            sym = sym[0]
+            if sym == "F" and logic in ("OR", "EXECUTOR_PRIORITY"):
+                sym = "X"     # an executor FAILURE verdict is not a blocked/failed request under these gates
+            want = sym
+            i = next(self.fresh)
+            verdicts = None
+            if real:
+                prompt = {"S": "summarise report %d", "B": "destroy table %d", "F": "deploy build %d", "X": "summarise report %d"}[sym] % i
+            else:
+                pm = self.opts["prompts"]
+                if pm == "same":
+                    prompt = "the one request"
+                elif pm == "equal":
+                    prompt = "".join(["the one ", "request"])
+                else:
+                    prompt = "request %d" % i
+                verdicts = {"S": ("EXECUTE", "PERMIT"), "B": ("EXECUTE", "BLOCK") if logic == "AND" else ("BLOCK", "BLOCK"),
+                            "F": ("FAILURE", "PERMIT"), "X": ("raise", "PERMIT") if who == "ex" else ("EXECUTE", "raise")}[sym]
+                self.cur_cls = sym
+                if is_slow:
+                    slow = round(max(0.0, recovery) * 0.75, 3)
+                    ctx.count("slow_failures")
+        if real and sym == "X":
+            return True   # genuine agents do not raise on demand
+        st0 = loop.get_circuit_breaker_stats()
+        elapsed = None if m.last_failure is None else clock.time() - m.last_failure
+        if real:
+            ctx.count("real_agent_steps")
+        if self.opts["verbose"]:
+            ctx.count("verbose_requests")
+        if self.opts["ident"] == "const" and not real:
+            ctx.count("shared_verdict_object_requests")
+        chars0 = self.rig.sink.chars
+        o = self.do(("req", prompt, verdicts, slow, who))
+        if self.opts["verbose"]:
+            ctx.count("verbose_output_chars", self.rig.sink.chars - chars0)
+        self.observed.append(obs_tuple(o))
+        if o["err"] is not None:
+            self.viol("run-raises", "run() raised %r" % (o["err"],))
+            return False
+        r, calls, spent = o["r"], o["calls"], o["spent"]
+        if o["cb_raised"]:
+            ctx.count("callback_exceptions_propagated")
+        st = loop.get_circuit_breaker_stats()
+        # classify what actually happened from the monitors (not from the loop's own bookkeeping)
+        ex, asr = self.rig.ex, self.rig.asr
+        if calls == 0:
+            outcome = "refused" if r.action == "CIRCUIT_OPEN" else "cachehit" if r.cached else "no-agents:" + r.action
+        elif real:
+            e_v, a_v = ex.last, asr.last
+            if e_v is None or (asr.calls and a_v is None and asr.calls > 0 and calls == 2):
+                outcome = "X"
+            elif a_v == "BLOCK" or e_v == "BLOCK":
+                outcome = "B"
+            elif e_v == "FAILURE" and a_v == "PERMIT":
+                outcome = "F"
+            elif e_v in ("EXECUTE", "PERMIT") and a_v == "PERMIT":
+                outcome = "S"
+            else:
+                outcome = "other"
+        elif want != "C":
+            outcome = want
+        else:
+            # the repeat was not served from the cache (expired / cleared / evicted): the stubs answered as currently scripted
+            outcome = self.cur_cls if self.cur_cls in ("S", "B", "F", "X") else "consulted-on-repeat"
+        self.note(sym, prompt, "->", r.action, "cached" if r.cached else "", "callback raised" if o["cb_raised"] else "", st.state.value, st.failure_count, outcome)
+
+        if not enabled:
+            if r.action == "CIRCUIT_OPEN":
+                self.viol("disabled-breaker-refuses", "breaker disabled, reply CIRCUIT_OPEN")
+                return False
+            if calls == 0 and not r.cached:
+                self.viol("disabled-breaker-agents-not-consulted", "breaker disabled, agents not consulted and reply not cached")
+                return False
+            if outcome in ("S", "B", "F") and cache:
+                self.cached_prompts.append((prompt, outcome))
+            return True
+
+        # ---- reference automaton step
+        must_refuse = m.state == "open" and elapsed is not None and elapsed < recovery - 1e-4
+        must_admit = m.state == "open" and elapsed is not None and elapsed >= recovery - 1e-5
+        if must_refuse:
+            ctx.count("open_refusals_checked")
+            if recovery < 1.0:
+                ctx.count("subsecond_timeout_refusals")
+            if int(elapsed % DAY) >= int(recovery % DAY):
+                ctx.count("truncation_gap_refusals")      # refused although the whole-second components alone would say "elapsed"
+                if recovery >= 1.0:
+                    ctx.count("fractional_gap_refusals")  # ... with a timeout of at least a second (2.0 <= elapsed < 2.5, whole days dropped)
+            if outcome != "refused" or not r.blocked:
+                mech = "open-consults-agents" if calls else "open-wrong-answer"
+                self.viol(mech, "OPEN for %.3fs of %.3fs: reply action=%s blocked=%s, %d agent calls" % (elapsed, recovery, r.action, r.blocked, calls))
+                return False
+            if spent != 0:
+                self.viol("open-spends-energy", "OPEN request spent %d ATP" % spent)
+                return False
+            if st.state.value != "open" or st.failure_count != st0.failure_count:
+                self.viol("open-refusal-changes-breaker", "refusal moved breaker to %s / count %d" % (st.state.value, st.failure_count))
+                return False
+            return True
+        if m.state == "open" and not must_admit:
+            # closer to the boundary than the clock grid resolves (never reached with grid-aligned timeouts): follow the implementation
+            ctx.count("boundary_gap(recorded)")
+            if outcome == "refused":
+                return True
+        elif outcome == "refused":
+            why = "closed" if m.state == "closed" else "half-open" if m.state == "half_open" else "recovery timeout elapsed (%.3fs >= %.3fs)" % (elapsed, recovery)
+            self.viol("refuses-when-not-open" if m.state != "open" else "probe-refused-after-timeout",
+                      "request refused with CIRCUIT_OPEN while the breaker should admit it: %s" % why)
+            return False
+        if m.state == "open":
+            ctx.count("probes_admitted")
+            if elapsed >= DAY:
+                ctx.count("day_jump_probes")
+            if recovery <= 0:
+                ctx.count("zero_timeout_probes")
+            m.state = "half_open"
+        if outcome == "cachehit":
+            # no obligation beyond: nothing recorded
+            if st.failure_count != st0.failure_count:
+                self.viol("cache-hit-changes-count", "cache hit changed the failure count")
+                return False
+            return True
+        if outcome in ("other", "consulted-on-repeat") or outcome.startswith("no-agents"):
+            ctx.count("unclassified_outcome(recorded)")
+            # resynchronise the model with the implementation for unclassifiable outcomes
+            m.state = st.state.value
+            return True
+        if cache and outcome in ("S", "B", "F"):
+            self.cached_prompts.append((prompt, outcome))
+        if outcome == "S":
+            m.consec = 0
+            if m.state == "half_open":
+                ctx.count("probe_success_closed")
+                m.state, m.total = "closed", 0
+                if st.state.value != "closed" or st.failure_count != 0:
+                    self.viol("probe-success-does-not-close", "successful probe left state=%s failure_count=%d" % (st.state.value, st.failure_count))
+                    return False
+            else:
+                if st.state.value != "closed":
+                    self.viol("success-opens", "success while closed moved the breaker to %s" % st.state.value)
+                    return False
+                if st.failure_count == 0:
+                    m.total = 0   # implementation variant that clears on every success
+        elif outcome == "B":
+            ctx.count("intentional_blocks")
+            if logic != "AND":
+                ctx.count("other_gate_blocks")
+            if st.failure_count != st0.failure_count:
+                self.viol("block-counted-as-failure", "intentional block moved the failure count %d -> %d" % (st0.failure_count, st.failure_count))
+                return False
+            if st.state.value != ("half_open" if m.state == "half_open" else "closed"):
+                self.viol("block-changes-state", "intentional block moved the breaker %s -> %s" % (m.state, st.state.value))
+                return False
+        elif outcome in ("F", "X"):
+            ctx.count("executor_failures" if outcome == "F" else "agent_exceptions")
+            if who == "as":
+                ctx.count("assessor_exceptions")
+            if self.extreme_th:
+                ctx.count("extreme_threshold_failures")
+            if self.opts["prompts"] != "fresh":
+                ctx.count("repeated_prompt_failures")
+            if o["cb_raised"]:
+                ctx.count("callback_raised_on_failure")
+            m.total += 1
+            m.consec += 1
+            m.last_failure = clock.time()
+            if m.state == "half_open":
+                ctx.count("probe_failure_reopened")
+                m.state = "open"
+                if st.state.value != "open":
+                    self.viol("probe-failure-does-not-reopen:" + outcome, "failed probe (%s) left the breaker %s" % (outcome, st.state.value))
+                    return False
+                if st.last_failure is None or abs(st.last_failure.timestamp() - clock.time()) > 1e-3:
+                    self.viol("probe-failure-does-not-restart-timeout", "failed probe did not restart the recovery timeout")
+                    return False
+            else:
+                if st.failure_count <= st0.failure_count and st.state.value == "closed":
+                    mech = "executor-failure-not-counted" if outcome == "F" else "exception-not-counted"
+                    if m.consec >= threshold:
+                        self.viol(mech, "%d consecutive failures with threshold %s: breaker still CLOSED (failure_count %d)" % (
+                            m.consec, threshold, st.failure_count))
+                        return False
+                    self.viol(mech, "failure (%s) did not increase the failure count (%d)" % (outcome, st.failure_count))
+                    return False
+                if st.state.value == "open":
+                    if m.total < threshold:
+                        self.viol("opens-before-threshold", "breaker opened after %d failure(s) in total, threshold %s" % (m.total, threshold))
+                        return False
+                    m.state = "open"
+                    ctx.count("trips")
+                    if self.long:
+                        ctx.count("long_session_trips")
+                elif m.consec >= threshold:
+                    self.viol("not-open-after-threshold", "%d consecutive failures, threshold %s, breaker %s" % (m.consec, threshold, st.state.value))
+                    return False
+                if st.last_failure is None or abs(st.last_failure.timestamp() - clock.time()) > 1e-3:
+                    self.viol("last-failure-not-recorded", "failure instant not recorded")
+                    return False
+        if m.state == "open":
+            self.reached_open = True
+        if not self.long or len(m.trace) < 40:
+            m.trace.append((m.state, min(m.total, 5)))
+        return True
+
+    def finish(self):
+        if self.reached_open and not self.dead:
+            self.ctx.nontrivial((repr(self.cfg), tuple(self.m.trace)))
+
+
+def describe(cfg, opts, real):
+    threshold, recovery, cache, enabled, logic = cfg
+    d = {"threshold": threshold, "recovery_s": recovery, "cache": cache, "breaker": enabled, "real_agents": real, "gate": logic}
+    d.update({k: v for k, v in opts.items() if v != DEFAULT_OPTS.get(k)})
+    return d
+
+
+def twin(ctx, primary, reads):
+    """Replay the primary session's concrete operations on a fresh loop with no ('blind') or many ('noisy') read-only calls in between:
+    every reply, agent-call count and energy spent must be the same."""
+    clock = VClock(base=1_700_000_000.0)
+    import operon_ai.topology.loops as loops_mod
+    with patched(clock, loops_mod):
+        rig = Rig(clock, primary.cfg, primary.opts, real=False, reads=reads)
+        k = 0
+        for op in primary.script:
+            o = rig.do(op)
+            if o is None:
+                continue
+            got, want = obs_tuple(o), primary.observed[k]
+            ctx.count("twin_requests_compared")
+            if got != want:
+                w = dict(primary.witness, twin={"reads": reads, "request_index": k, "reply_with_stats_reads_around_each_request": want, "reply_in_twin": got})
+                ctx.violation("read-only-calls-change-reply:" + reads,
+                              "request %d answered %r when statistics are read around every request but %r with %s" % (
+                                  k, want, got, "no read-only calls at all" if reads == "blind" else "bursts of read-only calls"), w)
+                return
+            k += 1
+
+
+def drive(ctx, n, cfg, seq, real, opts=DEFAULT_OPTS, twin_mode=None):
+    import operon_ai.topology.loops as loops_mod
+    clock = VClock(base=1_700_000_000.0)
+    witness = {"config": describe(cfg, opts, real), "sequence": seq, "trace": []}
+    with patched(clock, loops_mod):
+        s = Session(ctx, clock, cfg, opts, witness, real=real)
+        for sym in seq:
+            if not s.step(sym):
+                break
+        s.finish()
+    if twin_mode and not s.dead and not real:
+        twin(ctx, s, twin_mode)
+    if n % 5000 == 0:
+        ctx.sample(witness)
+
+
+def drive_pair(ctx, n, rng, specs):
+    """Two differently configured loops alive at the same time on one clock, used alternately (optionally charging one shared budget)."""
+    import operon_ai.topology.loops as loops_mod
+    from operon_ai.state.metabolism import ATP_Store
+    clock = VClock(base=1_700_000_000.0)
+    witness = {"instances": {lab: describe(cfg, opts, False) for lab, (cfg, opts, _seq) in zip("AB", specs)},
+               "sequences": {lab: seq for lab, (_c, _o, seq) in zip("AB", specs)}, "trace": []}
+    ctx.count("pair_sessions")
+    with patched(clock, loops_mod):
+        shared = ATP_Store(10 ** 7, silent=True) if rng.random() < 0.5 else None
+        witness["shared_budget"] = shared is not None
+        ss = [Session(ctx, clock, cfg, opts, witness, label=lab, budget=shared) for lab, (cfg, opts, _seq) in zip("AB", specs)]
+        todo = [list(specs[0][2]), list(specs[1][2])]
+        while todo[0] or todo[1]:
+            i = rng.randrange(2)
+            if not todo[i]:
+                i = 1 - i
+            if not ss[i].step(todo[i].pop(0)):
+                return
+        for s in ss:
+            s.finish()
+
+
+def random_opts(rng, cfg):
+    threshold, recovery, cache, enabled, logic = cfg
+    if rng.random() < 0.4:
+        threshold = rng.choice(EXT_THRESHOLDS)
+    if rng.random() < 0.5:
+        recovery = rng.choice(EXT_RECOVERIES)
+    opts = dict(DEFAULT_OPTS)
+    opts["verbose"] = rng.random() < 0.33
+    opts["callbacks"] = rng.choice([None, None, None, "ok", "raise", "raise", "raise-some", "reads"])
+    opts["ident"] = "const" if rng.random() < 0.25 else "fresh"
+    opts["prompts"] = rng.choice(["fresh", "fresh", "fresh", "same", "equal"])
+    opts["cache_ttl"] = rng.choice([10 ** 6, 10 ** 6, 10 ** 6, 300.0, 0, 0.5, 10 ** 9])
+    opts["timeout_seconds"] = rng.choice([30.0, 30.0, 0, 0.001, None, 10 ** 9])
+    return (threshold, recovery, cache, enabled, logic), opts
+
+
+def long_session(ctx, n, rng, k):
+    """> 20 000 operations on ONE instance: (even k) a threshold above 20 000 reached by that many failures with blocks, cache hits and short
+    clock advances in between; (odd k) thousands of trip / refuse / probe cycles with small thresholds."""
+    import operon_ai.topology.loops as loops_mod
+    clock = VClock(base=1_700_000_000.0)
+    opts = dict(DEFAULT_OPTS)
+    opts["verbose"] = k % 4 >= 2
+    if k % 2 == 0:
+        th = 20000 + rng.randrange(1, 500)
+        cfg = (th, rng.choice([1.0, 2.5, 60.0]), rng.random() < 0.5, True, "AND")
+        pre = rng.choices(["F", "X", "Xa", "B", "C", "d<", "K"], weights=[6, 6, 2, 2, 1, 1, 0.05], k=th + th // 3)
+        seq = pre + ["F"] * 5 + rng.choices(RAND_ALPHA, weights=RAND_W, k=300)
+    else:
+        cfg = (rng.choice([1, 2, 3, 4]), rng.choice([0.5, 1.0, 2.5, 60.0]), rng.random() < 0.5, True, "AND")
+        alpha = [a for a in RAND_ALPHA if a != "dD"]
+        w = [wt for a, wt in zip(RAND_ALPHA, RAND_W) if a != "dD"]
+        seq = rng.choices(alpha, weights=w, k=22000)
+    witness = {"config": describe(cfg, opts, False), "sequence": "long session of %d symbols (trace = last steps)" % len(seq), "trace": []}
+    with patched(clock, loops_mod):
+        s = Session(ctx, clock, cfg, opts, witness, long=True)
+        for sym in seq:
+            if not s.step(sym):
+                break
+        s.finish()
+        if not s.dead:
+            ctx.count("long_sessions_completed")
+
+
 def run_case(ctx, n):
     depth = 4 if ctx.tier == "quick" else 5
     per_cfg = sweep_size(depth)
@@ -132,239 +718,24 @@ def run_case(ctx, n):
         seq = decode_seq(idx, depth)
         return drive(ctx, n, CONFIGS[ci], seq, real=False)
     rng = ctx.rng(n)
+    j = n - nsweep
+    if j < n_long(ctx.tier) * 3 and j % 3 == 0:       # spread over different shards
+        return long_session(ctx, n, rng, j // 3)
     cfg = rng.choice(CONFIGS)
     L = rng.randint(5, 8)
-    w = [3, 2, 4, 4, 1, 2, 1, 2, 1, 2, 2]
-    seq = rng.choices(RAND_ALPHA, weights=w, k=L)
+    seq = rng.choices(RAND_ALPHA, weights=RAND_W, k=L)
     real = (n % 10 == 0) and cfg[4] == "AND"
     if n % (250 if ctx.tier == "quick" else 2500) == 3:
         return thread_case(ctx, n, rng)
-    drive(ctx, n, cfg, seq, real=real)
-
-
-def drive(ctx, n, cfg, seq, real):
-    import operon_ai.topology.loops as loops_mod
-    from operon_ai.topology.loops import CoherentFeedForwardLoop, GateLogic
-    from operon_ai.state.metabolism import ATP_Store
-    threshold, recovery, cache, enabled, logic = cfg
-    clock = VClock(base=1_700_000_000.0)
-    witness = {"config": {"threshold": threshold, "recovery_s": recovery, "cache": cache, "breaker": enabled, "real_agents": real, "gate": logic},
-               "sequence": seq, "trace": []}
-
-    def viol(mech, what):
-        ctx.violation(mech, what, witness)
-
-    with patched(clock, loops_mod):
-        budget = ATP_Store(10 ** 7, silent=True)
-        loop = CoherentFeedForwardLoop(budget, gate_logic=GateLogic[logic], enable_circuit_breaker=enabled, failure_threshold=threshold,
-                                       recovery_timeout_seconds=recovery, enable_cache=cache, cache_ttl_seconds=10 ** 6, silent=True)
-        if real:
-            ex, asr = Proxy(loop.executor), Proxy(loop.assessor)
-        else:
-            ex, asr = Stub("Gene_Z (Exec)", budget), Stub("Gene_Y (Risk)", budget)
-            ex.clock = clock
-        loop.executor, loop.assessor = ex, asr
-        m = Model(threshold, recovery, enabled)
-        fresh = itertools.count()
-        cached_prompts = []       # prompts whose reply the cache holds: (prompt, class)
-        reached_open = False
-
-        for sym in seq:
-            ctx.count("steps")
-            if sym in ("d<", "d=", "d>"):
-                if m.last_failure is not None and m.state == "open":
-                    remaining = max(0.0, m.last_failure + recovery - clock.time())
-                else:
-                    remaining = recovery
-                remaining = round(remaining, 3)          # all instants stay on a millisecond grid, so the
-                half = int(remaining * 500) / 1000.0     # implementation's microsecond datetimes are exact
-                dt = {"d<": half, "d=": remaining, "d>": remaining + 1.0}[sym]
-                clock.advance(dt)
-                witness["trace"].append((sym, dt))
-                continue
-            if sym == "R":
-                loop.reset_circuit_breaker()
-                m.state, m.total, m.consec = "closed", 0, 0
-                st = loop.get_circuit_breaker_stats()
-                if st.state.value != "closed" or st.failure_count != 0:
-                    viol("reset-does-not-close", "after reset: state=%s failure_count=%d" % (st.state.value, st.failure_count))
-                    return
-                witness["trace"].append(("R",))
-                continue
-            # ---- a request
-            if sym == "C":
-                if not cached_prompts:
-                    continue
-                prompt, _cls = cached_prompts[-1]
-                want = "C"
-            else:
-                slow = sym in ("Fs", "Xs")
-                sym = sym[0]
-                if sym == "F" and logic in ("OR", "EXECUTOR_PRIORITY"):
-                    sym = "X"     # an executor FAILURE verdict is not a blocked/failed request under these gates
-                want = sym
-                i = next(fresh)
-                if real:
-                    prompt = {"S": "summarise report %d", "B": "destroy table %d", "F": "deploy build %d", "X": "summarise report %d"}[sym] % i
-                else:
-                    prompt = "request %d" % i
-                    ex.verdict, asr.verdict = {"S": ("EXECUTE", "PERMIT"), "B": ("EXECUTE", "BLOCK") if logic == "AND" else ("BLOCK", "BLOCK"),
-                                               "F": ("FAILURE", "PERMIT"), "X": ("raise", "PERMIT")}[sym]
-                    ex.slow = (recovery * 0.75 if slow else 0.0)
-                    if slow:
-                        ctx.count("slow_failures")
-            if real and sym == "X":
-                continue   # genuine agents do not raise on demand
-            calls0 = ex.calls + asr.calls
-            bal0 = budget.get_balance()
-            st0 = loop.get_circuit_breaker_stats()
-            elapsed = None if m.last_failure is None else clock.time() - m.last_failure
-            try:
-                if real:
-                    ctx.count("real_agent_steps")
-                    with contextlib.redirect_stdout(io.StringIO()):
-                        r = loop.run(prompt)
-                else:
-                    r = loop.run(prompt)
-            except BaseException as e:
-                viol("run-raises", "run() raised %r" % (e,))
-                return
-            calls = ex.calls + asr.calls - calls0
-            spent = bal0 - budget.get_balance()
-            st = loop.get_circuit_breaker_stats()
-            # classify what actually happened from the monitors (not from the loop's own bookkeeping)
-            if calls == 0:
-                outcome = "refused" if r.action == "CIRCUIT_OPEN" else "cachehit" if r.cached else "no-agents:" + r.action
-            elif real:
-                e_v, a_v = ex.last, asr.last
-                if e_v is None or (asr.calls and a_v is None and asr.calls > 0 and calls == 2):
-                    outcome = "X"
-                elif a_v == "BLOCK" or e_v == "BLOCK":
-                    outcome = "B"
-                elif e_v == "FAILURE" and a_v == "PERMIT":
-                    outcome = "F"
-                elif e_v in ("EXECUTE", "PERMIT") and a_v == "PERMIT":
-                    outcome = "S"
-                else:
-                    outcome = "other"
-            else:
-                outcome = want if want != "C" else "consulted-on-repeat"
-            witness["trace"].append((sym, prompt, "->", r.action, "cached" if r.cached else "", st.state.value, st.failure_count, outcome))
-
-            if not enabled:
-                if r.action == "CIRCUIT_OPEN":
-                    viol("disabled-breaker-refuses", "breaker disabled, reply CIRCUIT_OPEN")
-                    return
-                if calls == 0 and not r.cached:
-                    viol("disabled-breaker-agents-not-consulted", "breaker disabled, agents not consulted and reply not cached")
-                    return
-                if outcome in ("S", "B", "F") and cache:
-                    cached_prompts.append((prompt, outcome))
-                continue
-
-            # ---- reference automaton step
-            must_refuse = m.state == "open" and elapsed is not None and elapsed < recovery - 1e-4
-            must_admit = m.state == "open" and elapsed is not None and elapsed >= recovery - 1e-5
-            if must_refuse:
-                ctx.count("open_refusals_checked")
-                if outcome != "refused" or not r.blocked:
-                    mech = "open-consults-agents" if calls else "open-wrong-answer"
-                    viol(mech, "OPEN for %.1fs of %.1fs: reply action=%s blocked=%s, %d agent calls" % (elapsed, recovery, r.action, r.blocked, calls))
-                    return
-                if spent != 0:
-                    viol("open-spends-energy", "OPEN request spent %d ATP" % spent)
-                    return
-                if st.state.value != "open" or st.failure_count != st0.failure_count:
-                    viol("open-refusal-changes-breaker", "refusal moved breaker to %s / count %d" % (st.state.value, st.failure_count))
-                    return
-                continue
-            if outcome == "refused":
-                why = "closed" if m.state == "closed" else "half-open" if m.state == "half_open" else "recovery timeout elapsed (%.1fs >= %.1fs)" % (elapsed, recovery)
-                viol("refuses-when-not-open" if m.state != "open" else "probe-refused-after-timeout",
-                     "request refused with CIRCUIT_OPEN while the breaker should admit it: %s" % why)
-                return
-            if must_admit:
-                ctx.count("probes_admitted")
-                m.state = "half_open"
-            if outcome == "cachehit":
-                # no obligation beyond: nothing recorded
-                if st.failure_count != st0.failure_count:
-                    viol("cache-hit-changes-count", "cache hit changed the failure count")
-                    return
-                continue
-            if outcome in ("other", "consulted-on-repeat") or outcome.startswith("no-agents"):
-                ctx.count("unclassified_outcome(recorded)")
-                # resynchronise the model with the implementation for unclassifiable outcomes
-                m.state = st.state.value
-                continue
-            if cache and outcome in ("S", "B", "F"):
-                cached_prompts.append((prompt, outcome))
-            if outcome == "S":
-                m.consec = 0
-                if m.state == "half_open":
-                    ctx.count("probe_success_closed")
-                    m.state, m.total = "closed", 0
-                    if st.state.value != "closed" or st.failure_count != 0:
-                        viol("probe-success-does-not-close", "successful probe left state=%s failure_count=%d" % (st.state.value, st.failure_count))
-                        return
-                else:
-                    if st.state.value != "closed":
-                        viol("success-opens", "success while closed moved the breaker to %s" % st.state.value)
-                        return
-                    if st.failure_count == 0:
-                        m.total = 0   # implementation variant that clears on every success
-            elif outcome == "B":
-                ctx.count("intentional_blocks")
-                if logic != "AND":
-                    ctx.count("other_gate_blocks")
-                if st.failure_count != st0.failure_count:
-                    viol("block-counted-as-failure", "intentional block moved the failure count %d -> %d" % (st0.failure_count, st.failure_count))
-                    return
-                if st.state.value != ("half_open" if m.state == "half_open" else "closed"):
-                    viol("block-changes-state", "intentional block moved the breaker %s -> %s" % (m.state, st.state.value))
-                    return
-            elif outcome in ("F", "X"):
-                ctx.count("executor_failures" if outcome == "F" else "agent_exceptions")
-                m.total += 1
-                m.consec += 1
-                m.last_failure = clock.time()
-                if m.state == "half_open":
-                    ctx.count("probe_failure_reopened")
-                    m.state = "open"
-                    if st.state.value != "open":
-                        viol("probe-failure-does-not-reopen:" + outcome, "failed probe (%s) left the breaker %s" % (outcome, st.state.value))
-                        return
-                    if st.last_failure is None or abs(st.last_failure.timestamp() - clock.time()) > 1e-3:
-                        viol("probe-failure-does-not-restart-timeout", "failed probe did not restart the recovery timeout")
-                        return
-                else:
-                    if st.failure_count <= st0.failure_count and st.state.value == "closed":
-                        mech = "executor-failure-not-counted" if outcome == "F" else "exception-not-counted"
-                        if m.consec >= threshold:
-                            viol(mech, "%d consecutive failures with threshold %d: breaker still CLOSED (failure_count %d)" % (
-                                m.consec, threshold, st.failure_count))
-                            return
-                        viol(mech, "failure (%s) did not increase the failure count (%d)" % (outcome, st.failure_count))
-                        return
-                    if st.state.value == "open":
-                        if m.total < threshold:
-                            viol("opens-before-threshold", "breaker opened after %d failure(s) in total, threshold %d" % (m.total, threshold))
-                            return
-                        m.state = "open"
-                        ctx.count("trips")
-                    elif m.consec >= threshold:
-                        viol("not-open-after-threshold", "%d consecutive failures, threshold %d, breaker %s" % (m.consec, threshold, st.state.value))
-                        return
-                    if st.last_failure is None or abs(st.last_failure.timestamp() - clock.time()) > 1e-3:
-                        viol("last-failure-not-recorded", "failure instant not recorded")
-                        return
-            if m.state == "open":
-                reached_open = True
-            m.trace.append((m.state, min(m.total, 5)))
-        if reached_open:
-            ctx.nontrivial((cfg, tuple(m.trace)))
-    if n % 5000 == 0:
-        ctx.sample(witness)
+    if real or n % 10 in (1, 2, 3):
+        # the round-1/2 workload unchanged: grid configurations, default options
+        return drive(ctx, n, cfg, seq, real=real)
+    cfg2, opts = random_opts(rng, cfg)
+    if n % 10 in (4, 5):
+        cfg_b, opts_b = random_opts(rng, rng.choice(CONFIGS))
+        seq_b = rng.choices(RAND_ALPHA, weights=RAND_W, k=rng.randint(5, 8))
+        return drive_pair(ctx, n, rng, [(cfg2, opts, seq), (cfg_b, opts_b, seq_b)])
+    drive(ctx, n, cfg2, seq, real=False, opts=opts, twin_mode={6: "blind", 7: "noisy"}.get(n % 10))
 
 
 class PStub:
@@ -383,14 +754,21 @@ class PStub:
         return ActionProtein(v, "p", 0.9)
 
 
+def scalar_state_fields(obj):
+    """instance attributes holding plain bookkeeping values (counters, enum states, instants), whatever they are called"""
+    return [k for k, v in vars(obj).items()
+            if k.startswith("_") and not k.startswith("__") and (v is None or isinstance(v, (int, float, enum.Enum, _dt.datetime)))]
+
+
 def thread_case(ctx, n, rng):
     """Concurrent failing requests on one loop under the line-level scheduler. Only statement-derived obligations are judged:
     K admitted failures with no success in between => open if K >= threshold; never open with K < threshold; failure_count <= K."""
     from operon_ai.topology.loops import CoherentFeedForwardLoop
     from operon_ai.state.metabolism import ATP_Store
     sched.instrument(CoherentFeedForwardLoop, PStub)
-    # breaker bookkeeping fields are yield points too (read and write), so a read-modify-write of a counter can be split
-    Loop = sched.yielding_fields(CoherentFeedForwardLoop, ["_failure_count", "_circuit_state", "_last_failure", "_trips_count"])
+    # bookkeeping fields are yield points too (read and write), so a read-modify-write of a counter can be split
+    probe = CoherentFeedForwardLoop(ATP_Store(10, silent=True), silent=True)
+    Loop = sched.yielding_fields(CoherentFeedForwardLoop, scalar_state_fields(probe))
     threshold = rng.choice([1, 2, 2, 3, 4])
     nthreads = rng.choice([2, 2, 3])
     reqs = [["E=%s;A=PERMIT;#%d.%d" % (rng.choice(["FAILURE", "raise"]), t, k) for k in range(rng.randint(1, 2))] for t in range(nthreads)]
@@ -433,8 +811,8 @@ def thread_case(ctx, n, rng):
     base = one(sched.PreemptionPolicy({}), "pb(0)")
     N = max(base.step, 1)
     combos = [(s_, t) for s_ in range(1, N + 1) for t in range(nthreads)]
-    if len(combos) > 200:
-        combos = rng.sample(combos, 200)
+    if len(combos) > 250:
+        combos = rng.sample(combos, 250)
     for (s_, t) in combos:
         one(sched.PreemptionPolicy({s_: t}), "pb(1)@%d->%d" % (s_, t))
     for i in range(60):
